@@ -41,7 +41,7 @@ ASSUMPTIONS = ['IEEE rounding is not modelled: values are compared with a roundi
                '(it comes back within 1e-13 relative of the knot) is sent as that knot, i.e. the tabulated value is expected, '
                'never a refusal',
                'tables are increasing in aperture (the quantifier), so min()/max() are the first / last knot']
-N = {'quick': 400, 'thorough': 6000}
+N = {'quick': 400, 'thorough': 40000}
 TOL = 1e-9
 UNITS = {'au': u.au, 'pc': u.pc, 'cm': u.cm, 'm': u.m, 'km': u.km}
 UNIT_NAMES = ['au', 'pc', 'cm', 'm', 'km']
